@@ -46,9 +46,10 @@
 (*   pre      streams/groups/disk at the moment of the last restart        *)
 (*   obs      result of the last call                                      *)
 (*                                                                         *)
-(* Operations are records [op |-> "CreateStream", ...].  The asynchronous  *)
-(* StreamDeleted announcement to the groups is taken promptly here (right  *)
-(* after the step that starts it); its free scheduling is Groups.tla/C12.  *)
+(* Operations are records [op |-> "CreateStream", ...].  The StreamDeleted  *)
+(* announcement to the groups is part of the step that removes the stream  *)
+(* (metadataAPI.removeStream returns it, the callers run it before the     *)
+(* apply returns).                                                         *)
 (***************************************************************************)
 EXTENDS GroupOps, TLC
 
